@@ -49,7 +49,7 @@ def run(res, args):
         segs = [("F", f)] + ([("J", gen.rand_junk(rng))] if rng.random() < 0.3 else []) + [("F", f), ("F", gen.rand_frame(rng, small=True))]
         v = max(i for i, (k, b) in enumerate(segs) if b == f)
         g = bytearray(f)
-        i = rng.randint(5, len(f) - 4)
+        i = rng.randint(5, len(f) - 4) if rng.random() < 0.6 else rng.randint(len(f) - 3, len(f) - 1)
         g[i] ^= 1 << rng.randint(0, 7)
         items.append((segs, v, bytes(g), b"", "damaged-repeat"))
     if res.tier == "thorough":
